@@ -939,10 +939,16 @@ def lfo_retune_cases(ctx):
     r = ctx.rng
     for i in range(ctx.scale(120, 3000)):
         tpb = r.choice([1, 2, 4, 8, 16, 24, 96, 480])
-        tl = iso.Timeline(output_device=OutputDevice(), clock_source=iso.DummyClock(ticks_per_beat=tpb))
+        # the timeline's resolution may be fixed only AFTER the LFO exists (timeline.ticks_per_beat = N before the first tick):
+        # the oscillator's time is the timeline's, at the resolution in force when it ticks
+        late_resolution = r.random() < 0.4
+        tl = iso.Timeline(output_device=OutputDevice(), clock_source=iso.DummyClock(
+            ticks_per_beat=(r.choice([x for x in (3, 10, 48, 480) if x != tpb]) if late_resolution else tpb)))
         f0, lo0, w0 = r.choice([0.25, 0.5, 1, 2, 3]), r.choice([-2.0, 0.0, 1.0, 10.0]), r.choice([0.5, 1.0, 4.0, 100.0])
         name = "l%d" % i
         lfo = tl.lfo({"shape": "sine", "frequency": f0, "min": lo0, "max": lo0 + w0}, name=name)
+        if late_resolution:
+            tl.ticks_per_beat = tpb
         cur = dict(frequency=f0, min=lo0, max=lo0 + w0)
         ticks = 0
         how_used = []
